@@ -902,7 +902,165 @@ def run_mixed(ctx, d):
     return cases, fails, [("mixed", "pattern-%d" % d["pattern"])], dict(xml=xml)
 
 
-RUNNERS = {"dispatch": run_dispatch, "ctor": run_ctor, "attr": run_attr, "document": run_document, "paths": run_paths, "mixed": run_mixed}
+# ---- detached objects: every way of obtaining a wrapper that is NOT inside a document -------------------------------
+
+DIVERSE_ATTRS = ["draw:name", "svg:width", "xlink:href", "fo:color", "style:name", "table:name", "text:style-name",
+                 "presentation:class", "office:value-type", "number:style", "meta:name", "dc:x", "xml:id", "smil:begin", "anim:id"]
+DETACHED_WAYS = ("ctor", "clone", "clone-of-clone", "reparse", "extracted", "child-of-clone", "from_tag(qname)")
+
+
+def obtain(ctx, cls, kwargs, way):
+    E = ctx.Element
+    inst = cls(**kwargs)
+    if way == "ctor":
+        return inst
+    if way == "clone":
+        return inst.clone
+    if way == "clone-of-clone":
+        return inst.clone.clone
+    if way == "reparse":
+        return E.from_tag(inst.serialize())
+    if way == "from_tag(qname)":
+        q = ctx.qname(priv(inst).tag)
+        return E.from_tag(q)
+    if way == "extracted":        # put into a parent, take out again
+        parent = E.from_tag("text:section")
+        parent.append(inst)
+        child = parent.children[-1]
+        parent.delete(child)
+        return child
+    if way == "child-of-clone":
+        parent = E.from_tag("text:section")
+        parent.append(inst)
+        return parent.clone.children[-1]
+    raise ValueError(way)
+
+
+def run_detached(ctx, d):
+    """d = {kind:'detached', cls, base, way}: an object obtained through `way`, while detached from any document, gets every
+    generic property of its class and attributes from a namespace-diverse list set; then serialize -> bare lxml parse ->
+    from_tag must work, every attribute must sit in the ODF namespace its qname names, and the infoset must be kept."""
+    if d["cls"] not in ctx.classes:
+        return [], [], [("detached-skipped", "class-unknown")], {}
+    cls = ctx.classes[d["cls"]]
+    kwargs = {k: dec(v, ctx.odfdo) for k, v in d.get("base", {}).items()}
+    try:
+        obj = with_timeout(lambda: obtain(ctx, cls, kwargs, d["way"]))
+    except Exception as e:
+        return [], [], [("detached-skipped", "obtain:" + type(e).__name__)], {}
+    ci = ctx.cinfo.get(d["cls"]) or {}
+    fails, want = [], {}
+    for prop, (attr, fam) in sorted((ci.get("generic_props") or {}).items()):
+        if prop in ci.get("pinned", []) or attr == "xml:id" or not hasattr(type(obj), prop):
+            continue
+        try:
+            setattr(obj, prop, "v")
+            if getattr(obj, prop) == "v":
+                want[attr] = "v"
+        except Exception:
+            pass
+    for qn in DIVERSE_ATTRS:
+        val = {"xml:id": "NCName1", "fo:color": "#00ff00"}.get(qn, "w")
+        try:
+            obj.set_attribute(qn, val)
+            want[qn] = val
+        except Exception:
+            pass            # a value the setter refuses: not this check's business
+    el = priv(obj)
+    for qn, v in want.items():
+        if el.get(ctx.clark(qn)) != v:
+            fails.append(("detached-attr-namespace/%s" % d["cls"], "%s obtained by %s: %s is not stored under its ODF namespace URI: %s"
+                          % (d["cls"], d["way"], qn, sorted(el.attrib.items())[:6])))
+            break
+    before = c14n(el)
+    try:
+        xml = obj.serialize()
+    except Exception as e:
+        return [], fails + [("detached-serialize/%s" % d["cls"], "%s obtained by %s: serialize() raised %r" % (d["cls"], d["way"], e))], [("detached", d["way"])], {}
+    try:
+        bare = ctx.bare_parse(xml)
+    except etree.XMLSyntaxError as e:
+        fails.append(("not-wellformed-detached/%s" % d["way"], "%s obtained by %s, after setting %d attributes: serialize() is not well-formed namespaced XML: %s ... %s"
+                      % (d["cls"], d["way"], len(want), str(e)[:120], xml[:160])))
+        return [], fails, [("detached", d["way"])], dict(xml=xml)
+    if c14n(bare) != before:
+        fails.append(("serialize-infoset-detached/%s" % d["way"], "%s obtained by %s: C14N of the parsed serialisation differs" % (d["cls"], d["way"])))
+    try:
+        back = ctx.Element.from_tag(xml)
+        if c14n(priv(back)) != before:
+            fails.append(("reparse-infoset-detached/%s" % d["way"], "%s obtained by %s: C14N after from_tag(serialize()) differs" % (d["cls"], d["way"])))
+        cases = ["Dispatch %s %s" % (coq_str(priv(back).tag), coq_str(type(back).__name__))]
+    except Exception as e:
+        fails.append(("reparse-raises-detached/%s" % d["way"], "%s obtained by %s: from_tag(serialize()) raised %r" % (d["cls"], d["way"], e)))
+        cases = []
+    return cases, fails, [("detached", d["way"])], dict(xml=xml)
+
+
+# ---- wrapping an existing node never changes it, whatever the spelling of its attribute values ------------------------
+
+def respell(value):
+    """other valid lexical forms / foreign spellings of an attribute value, as other producers write them"""
+    out = []
+    if value in ("true", "false"):
+        out.append({"true": "1", "false": "0"}[value])
+    m = re.match(r"^(-?\d+(?:\.\d+)?)(cm|mm|in|pt)$", value)
+    if m:
+        x = float(m.group(1))
+        out += ["%gmm" % (x * 10) if m.group(2) == "cm" else "%gpt" % x, "%.4fin" % (x / 2.54)]
+    if re.match(r"^\d{4}-\d\d-\d\dT", value):
+        out += [value[:10], value + "Z", value + ".000"]
+    if "$" in value and "." in value:        # cell / range addresses
+        out += [value.replace("$", ""), re.sub(r"^\$([^.$']+)\.", r"$'\1'.", value), re.sub(r"^\$([^.$']+)\.", r"\1.", value),
+                re.sub(r"\$A\$1$", "$C$5", value), value.replace(":.", ":$T.")]
+    if value and not out:
+        out += [" " + value, value + " with space & é"]
+    return [o for o in out if o != value]
+
+
+def run_wrap(ctx, d):
+    """d = {kind:'wrap', cls, base}: the all-defaults / all-arguments instance is serialised; each attribute value is re-spelled
+    (one at a time, every re-spelling); Element.from_tag of the bare-parsed node -- and a few reads on the wrapper -- must
+    leave the node byte-identical (lxml serialisation before = after)."""
+    if d["cls"] not in ctx.classes:
+        return [], [], [("wrap-skipped", "class-unknown")], {}
+    cls = ctx.classes[d["cls"]]
+    kwargs = {k: dec(v, ctx.odfdo) for k, v in d.get("kwargs", {}).items()}
+    try:
+        inst = with_timeout(lambda: cls(**kwargs))
+    except Exception:
+        return [], [], [("wrap-skipped", "ctor")], {}
+    xml0 = inst.serialize()
+    node0 = ctx.bare_parse(xml0)
+    variants = [("as written by odfdo", None, None)]
+    for a, v in list(node0.attrib.items()):
+        for r in respell(v):
+            variants.append(("%s=%r instead of %r" % (ctx.qname(a), r, v), a, r))
+    fails, n = [], 0
+    for label, a, r in variants[:40]:
+        node = ctx.bare_parse(xml0)
+        if a is not None:
+            node.set(a, r)
+        before = etree.tostring(node)
+        try:
+            w = ctx.Element.from_tag(node)
+            for p in ("name", "style", "text", "tag"):
+                try:
+                    getattr(w, p, None)
+                except Exception:
+                    pass
+            str(w)
+        except Exception:
+            continue            # a spelling the class refuses is not this check's business
+        n += 1
+        after = etree.tostring(node)
+        if after != before:
+            fails.append(("wrap-rewrites/%s" % d["cls"], "Element.from_tag on a <%s> with %s rewrote it: %s  ->  %s"
+                          % (ctx.qname(node.tag), label, before.decode()[-220:], after.decode()[-220:])))
+            break
+    return [], fails, [("wrap", "variants")] * 1, dict(variants=n)
+
+
+RUNNERS = {"dispatch": run_dispatch, "ctor": run_ctor, "attr": run_attr, "document": run_document, "paths": run_paths, "mixed": run_mixed, "detached": run_detached, "wrap": run_wrap}
 
 
 # ------------------------------------------------------------------------------------------------ generation
@@ -928,6 +1086,12 @@ def gen_cases(ctx, tier, rng):
         base = {k: enc(v) for k, v in BASE.get(cname, {}).items()}
         for i in range(len(WS_PATTERNS)):
             ds.append(dict(kind="mixed", cls=cname, base=base, pattern=i))
+    # A4. detached objects (every way of obtaining one) with namespace-diverse attributes; A5. wrapping re-spelled instances
+    for cname in sorted(ctx.classes):
+        base = {k: enc(v) for k, v in BASE.get(cname, {}).items()}
+        for way in DETACHED_WAYS:
+            ds.append(dict(kind="detached", cls=cname, base=base, way=way))
+        ds.append(dict(kind="wrap", cls=cname, kwargs=base))
     # B. constructors: every argument alone over its type-directed values, then combinations
     for cname in sorted(ctx.classes):
         ci = ctx.cinfo.get(cname)
@@ -978,6 +1142,7 @@ def gen_cases(ctx, tier, rng):
                 if tv:
                     kw[a] = enc(tv[0])
             ds.append(dict(kind="ctor", cls=cname, kwargs=kw, focus=[a for a in names if a in kw]))
+            ds.append(dict(kind="wrap", cls=cname, kwargs=kw))
     # C. generic property assignments
     avals = [None, True, False, "x", "true", "false", "", 0, 3, 1.5, " a b ", "q\"<&'>", "é中", "True", "none"]
     for cname in sorted(ctx.classes):
@@ -1158,6 +1323,8 @@ def run(tier, seed, replay=None):
         rule="A: every registered tag and own tag (+9 unregistered ones) at depth 1,2,3 through from_tag(str/lxml), children, get_elements, get_element, xpath, parent, root, clone; "
              "A2: every registered tag as RECEIVER around a fragment mixing ~25 tags at depth 1-3: get_elements/xpath/get_element with 8 heterogeneous queries (*, descendant::*, unions, positional), children to depth 3, parent, clone, typed finders/iterators; every wrapper's class judged in Coq against its own node's tag, and all paths must agree on a node (receivers overriding a path are found by introspection); "
              "A3: every class with 5 mixed-content patterns (whitespace-only text/tail nodes between siblings, at start/end, nested): C14N through serialize -> lxml and serialize -> from_tag; "
+             "A4: every class obtained DETACHED in 7 ways (constructor, clone, clone of clone, re-parse, extracted child, child of a clone, from_tag(qname)), every generic property and 15 attributes from different ODF namespaces set, then serialize -> lxml -> from_tag; "
+             "A5: wrapping (Element.from_tag) the default and the all-arguments instance with each attribute value re-spelled as other producers write it (1/0, other units, date only, relative / quoted / foreign-base addresses, padded strings) leaves the node byte-identical; "
              "B: every class: default constructor, every argument alone over type-directed values (annotation-driven; explicit lists for validated arguments), random combinations, all arguments at once; "
              "C: every generic property: fixed and random assignment sequences over None/bool/str/'true'/int/float/unicode; "
              "D: every element (first %d per tag) of content/styles/meta of every sample and template through from_tag, get_elements, parent, children and the zero-argument typed finders. "
